@@ -5,6 +5,7 @@
 #include "nodes/variable/variable.h"
 #include "nodes/variable/array.h"
 #include "nodes/functions/procedure.h"
+#include "verif_hook.h"
 
 ProcedureNode::ProcedureNode(
     const Token &token,
@@ -68,6 +69,11 @@ std::unique_ptr<NodeResult> CallNode::evaluate(PSC::Context &ctx) {
     if (args.size() != nArgs)
         throw PSC::InvalidArgsError(token, ctx, procedure->getTypes(), std::move(argTypes));
 
+#ifdef PSEUDOENGINE2_VERIF
+    verif::DepthGuard verifDepth(verif::budget().usedDepth);
+    if (verif::budget().usedDepth > verif::budget().depth)
+        throw PSC::RuntimeError(token, ctx, "VERIF budget exhausted: depth");
+#endif
     auto procedureCtx = std::make_unique<PSC::Context>(&ctx, procedureName);
     ctx.switchToken = &token;
 
